@@ -33,10 +33,15 @@ F09 = 'F09-check-then-create-race-same-local-path'
 CHAINS = ['D', 'DN', 'DKN', 'KDN', 'ND', 'DNK', 'K', 'N', '', 'KKD']
 
 
+_STRATS = {}
+
+
 def strategies(code):
-    from aioslsk.naming import DefaultNamingStrategy, KeepDirectoryStrategy, NumberDuplicateStrategy
-    m = {'D': DefaultNamingStrategy, 'K': KeepDirectoryStrategy, 'N': NumberDuplicateStrategy}
-    return [m[c]() for c in code]
+    if code not in _STRATS:
+        from aioslsk.naming import DefaultNamingStrategy, KeepDirectoryStrategy, NumberDuplicateStrategy
+        m = {'D': DefaultNamingStrategy, 'K': KeepDirectoryStrategy, 'N': NumberDuplicateStrategy}
+        _STRATS[code] = [m[c]() for c in code]
+    return list(_STRATS[code])
 
 
 def coq_chain(code):
@@ -269,7 +274,7 @@ def exhaustive(run: Run, found):
                     nstr += 1
                     res = None
                     # monitor on the default chain and the keep-directory chain
-                    for code in ('DN', 'DKN'):
+                    for code in ('DN', 'DKN', 'D', 'DK'):
                         from aioslsk.naming import chain_strategies
                         try:
                             res = chain_strategies(strategies(code), s, t.dl)
@@ -379,7 +384,7 @@ def populate(rng, t, remote, code):
             _touch(os.path.join(d, name))
         ks = rng.sample(range(1, 9), rng.randrange(0, 5))
         if rng.random() < 0.2:
-            ks.append(rng.choice([10, 11, 99, 12345678901234567890]))
+            ks.append(rng.choice([10, 11, 99, 4000]))   # not huge: the real code builds set(range(min, max + 2)) -> memory blow-up (see report)
         for k in ks:
             _touch(os.path.join(d, f'{stem} ({k}){ext}'))
         for trap in rng.sample([f'{stem} (2){ext}.bak', f'{stem} (x){ext}', f'{stem} (03){ext}', f'{stem} (){ext}', f'x{stem} (1){ext}',
@@ -592,6 +597,8 @@ def coq_concurrent_cases(cases):
 # --------------------------------------------------------------------------------------------
 
 def add(run: Run, found, key, what, witness):
+    import re
+    what = re.sub(r'/tmp/verif_c09_[A-Za-z0-9_]+', '<tmp>', what)
     if key in found:
         return
     found.add(key)
